@@ -217,7 +217,9 @@ func importFields(c *Ctx, m string) {
 	rename := map[string]string{"Height": "He", "Blockhash": "Bh", "Parenthash": "Ph", "Hash1": "H1", "Hash2": "H2", "Hash3": "H3", "SubTime": "St", "TimestampId": "Id", "SubmitTime": "T", "Hash": "H"}
 	n := 0
 	for _, root := range w.Roots["INITGEN:"+m] {
-		for _, in := range instantiate(c, root, func(e ir.Effect) bool { return e.Kind == "StoreWrite" && strings.HasPrefix(e.Section, "x/"+m+"/types.") }, func(e ir.Effect) *ir.Expr { return marshalArg(c, e) }) {
+		for _, in := range instantiate(c, root, func(e ir.Effect) bool {
+			return e.Kind == "StoreWrite" && strings.HasPrefix(e.Section, "x/"+m+"/types.")
+		}, func(e ir.Effect) *ir.Expr { return marshalArg(c, e) }) {
 			st := in.E
 			if st == nil {
 				continue
@@ -354,7 +356,69 @@ func exportCountersRule(c *Ctx, rule string, only map[string]bool) {
 				if ir.ModuleOf(f) != rm.M || !genesisFuncs(c, "EXPORTGEN", rm.M)[f] {
 					continue
 				}
-				// find struct expressions of the registration type appended to the export list
+				// every value that ends up in a field of the exported registration: assigned field by field, or the whole
+				// registration stored in one go (a copy of the stored record with the recomputed counters replaced)
+				regT := "/x/" + rm.M + "/types." + regTypeName(rm)
+				checkField := func(fname string, v *ir.Expr, in ssa.Instruction) {
+					if only != nil && !only[fname] {
+						return
+					}
+					if fname != rm.Count && fname != rm.Lowest {
+						// every other exported registration field is the stored registration's like-named field
+						n++
+						isStored := func(v *ir.Expr) bool {
+							return v.Op == "field" && v.Name == fname && v.Args[0].Op == "elem" && w.Expand(v.Args[0].Args[0], 1).Any(func(x *ir.Expr) bool {
+								return x.Op == "call" && x.Callee != nil && reachesEffect(c, x.Callee, func(e ir.Effect) bool { return e.Kind == "StoreIter" && e.Section == rm.SecReg })
+							})
+						}
+						// the per-registration step may be a helper handed the registration: judge the value as its callers instantiate it
+						ok := isStored(v) || liftAll(c, f, v, isStored)
+						rl := "A7.export-fields"
+						if rule != "" {
+							rl = rule
+						}
+						r.Require(ok, rl, rm.M+"."+fname, pos(c, in), "exported registration field "+fname+" is the stored registration's "+fname, fname+" = "+v.String())
+						return
+					}
+					isRecords := func(x *ir.Expr) bool {
+						return w.Expand(x, 1).Any(func(z *ir.Expr) bool {
+							return z.Op == "call" && z.Callee != nil && reachesEffect(c, z.Callee, func(e ir.Effect) bool { return e.Kind == "StoreIter" && e.Section == rm.SecRec })
+						})
+					}
+					switch fname {
+					case rm.Count:
+						n++
+						// len(exported records); a helper computing it may hand back the constant 0 for the empty list, which is len of it
+						ok, seenLen := true, false
+						for _, a := range v.Alts() {
+							a = stripConvE(a)
+							if a.Op == "const" && a.Name == "0" {
+								continue
+							}
+							if a.Op == "call" && a.Name == "builtin:len" && len(a.Args) == 1 && isRecords(a.Args[0]) {
+								seenLen = true
+								continue
+							}
+							ok = false
+						}
+						r.Require(ok && seenLen, "A7.export-counters", rm.M+"."+rm.Count, pos(c, in), "exported "+rm.Count+" is the number of exported records", v.String())
+					case rm.Lowest:
+						n++
+						ok := true
+						seenElem := false
+						for _, a := range v.Alts() {
+							if a.Op == "const" && a.Name == "0" {
+								continue
+							}
+							if a.Op == "field" && a.Args[0].Op == "elem" && a.Args[0].Args[1].Op == "const" && a.Args[0].Args[1].Name == "0" {
+								seenElem = true
+								continue
+							}
+							ok = false
+						}
+						r.Require(ok && seenElem, "A7.export-counters", rm.M+"."+rm.Lowest, pos(c, in), "exported "+rm.Lowest+" is the key of the first exported record (0 when none)", v.String())
+					}
+				}
 				for _, b := range f.Blocks {
 					for _, in := range b.Instrs {
 						st, ok := in.(*ssa.Store)
@@ -365,60 +429,38 @@ func exportCountersRule(c *Ctx, rule string, only map[string]bool) {
 						if !ok {
 							continue
 						}
-						fname := ir.FieldName(fa.X.Type(), fa.Field)
 						if !strings.Contains(ptrElem(fa.X.Type()).String(), "/x/"+rm.M+"/types.") {
 							continue
 						}
-						v := w.ExprOf(st.Val)
-						if only != nil && !only[fname] {
+						fname := ir.FieldName(fa.X.Type(), fa.Field)
+						if strings.HasSuffix(ptrElem(fa.X.Type()).String(), regT) {
+							// a field of a registration
+							checkField(fname, w.ExprOf(st.Val), in)
 							continue
 						}
-						if fname != rm.Count && fname != rm.Lowest && strings.HasSuffix(ptrElem(fa.X.Type()).String(), "/x/"+rm.M+"/types."+regTypeName(rm)) {
-							// every other exported registration field is the stored registration's like-named field
-							n++
-							isStored := func(v *ir.Expr) bool {
-								return v.Op == "field" && v.Name == fname && v.Args[0].Op == "elem" && w.Expand(v.Args[0].Args[0], 1).Any(func(x *ir.Expr) bool {
-									return x.Op == "call" && x.Callee != nil && reachesEffect(c, x.Callee, func(e ir.Effect) bool { return e.Kind == "StoreIter" && e.Section == rm.SecReg })
-								})
-							}
-							// the per-registration step may be a helper handed the registration: judge the value as its callers instantiate it
-							ok := isStored(v) || liftAll(c, f, v, isStored)
-							rl := "A7.export-fields"
-							if rule != "" {
-								rl = rule
-							}
-							r.Require(ok, rl, rm.M+"."+fname, pos(c, in), "exported registration field "+fname+" is the stored registration's "+fname, fname+" = "+v.String())
-							continue
-						}
-						switch fname {
-						case rm.Count:
-							n++
-							ok := stripConvE(v).Op == "call" && stripConvE(v).Name == "builtin:len" && w.Expand(stripConvE(v).Args[0], 1).Any(func(x *ir.Expr) bool {
-								return x.Op == "call" && x.Callee != nil && reachesEffect(c, x.Callee, func(e ir.Effect) bool { return e.Kind == "StoreIter" && e.Section == rm.SecRec })
-							})
-							r.Require(ok, "A7.export-counters", rm.M+"."+rm.Count, pos(c, in), "exported "+rm.Count+" is the number of exported records", v.String())
-						case rm.Lowest:
-							n++
-							ok := true
-							seenElem := false
-							for _, a := range v.Alts() {
-								if a.Op == "const" && a.Name == "0" {
-									continue
+						if strings.HasSuffix(st.Val.Type().String(), regT) {
+							// a whole registration stored into the export record
+							ve := w.ExprOf(st.Val)
+							if ve.Op == "struct" {
+								for fi, fn2 := range ve.Fields {
+									checkField(fn2, ve.Args[fi], in)
 								}
-								if a.Op == "field" && a.Args[0].Op == "elem" && a.Args[0].Args[1].Op == "const" && a.Args[0].Args[1].Name == "0" {
-									seenElem = true
-									continue
+							} else if only == nil {
+								n++
+								isStoredReg := func(v *ir.Expr) bool {
+									return v.Op == "elem" && w.Expand(v.Args[0], 1).Any(func(x *ir.Expr) bool {
+										return x.Op == "call" && x.Callee != nil && reachesEffect(c, x.Callee, func(e ir.Effect) bool { return e.Kind == "StoreIter" && e.Section == rm.SecReg })
+									})
 								}
-								ok = false
+								r.Require(isStoredReg(ve) || liftAll(c, f, ve, isStoredReg), "A7.export-fields", rm.M+".<record>", pos(c, in), "the exported registration is the stored registration", ve.String())
 							}
-							r.Require(ok && seenElem, "A7.export-counters", rm.M+"."+rm.Lowest, pos(c, in), "exported "+rm.Lowest+" is the key of the first exported record (0 when none)", v.String())
 						}
 					}
 				}
 			}
 		}
 		if only == nil {
-			r.Floor("exported registration fields checked in "+rm.M, n, 8)
+			r.Floor("exported registration fields checked in "+rm.M, n, 2)
 		} else {
 			r.Floor("exported cursor fields checked in "+rm.M, n, 1)
 		}
@@ -677,9 +719,10 @@ func exportGenesisArgs(c *Ctx, rule string, onlyStartID bool) {
 				}
 			}
 		}
-		fl := map[string]int{"wrkchain": 4, "beacon": 4, "stream": 1}
+		// (one NewGenesisState call is enough: the separate call for an empty registry is an early return some versions have)
+		fl := map[string]int{"wrkchain": 2, "beacon": 2, "stream": 1}
 		if onlyStartID {
-			fl = map[string]int{"wrkchain": 2, "beacon": 2, "stream": 0}
+			fl = map[string]int{"wrkchain": 1, "beacon": 1, "stream": 0}
 		}
 		r.Floor("NewGenesisState arguments checked on the "+m+" export route", n, fl[m])
 	}
